@@ -23,6 +23,12 @@ class FileCache:
         """
         self.max_memory = max_memory or 2**20
         self.root_path = root_path or os.getcwd()
+        # the deepest directory on the root path that exists when the cache is created: every directory below it is
+        # created by a write, so a durable write syncs the directories up to this one (a root path that does not exist
+        # yet gets its own entry in its parent only then)
+        self.sync_base = os.path.abspath(self.root_path)
+        while not os.path.isdir(self.sync_base) and os.path.dirname(self.sync_base) != self.sync_base:
+            self.sync_base = os.path.dirname(self.sync_base)
         self.current_memory_usage = 0
         self.file_futures = {}
         self.file_access_times = []
@@ -112,7 +118,9 @@ class FileCache:
 
     def _fsync_dirs(self, path):
         """
-        Sync the directory "path" and its parents up to the root path, making their entries durable.
+        Sync the directory "path" and its parents up to the root path (or, if the root path did not exist when the
+        cache was created, up to the directory that holds the first directory of it that had to be created), making
+        their entries durable.
 
         Args:
         - path (str): the directory that holds the file just written
@@ -120,8 +128,8 @@ class FileCache:
         Returns:
         None
         """
-        root = os.path.normpath(self.root_path)
-        path = os.path.normpath(path)
+        root = self.sync_base
+        path = os.path.abspath(path)
         while True:
             fd = os.open(path, os.O_RDONLY)
             try:
